@@ -62,13 +62,20 @@ class IsCompletedObserver(FeatureObserver):
         self.remaining_ops_per_job = np.zeros(
             (dispatcher.instance.num_jobs, 1), dtype=int
         )
+        # The `RemainingOperationsObserver` must be subscribed before this
+        # observer so that it has already been reset when this observer
+        # re-initializes its counters from it in `reset`.
+        self._get_remaining_ops_observer(dispatcher, feature_types)
         super().__init__(
             dispatcher,
             feature_types=feature_types,
             subscribe=subscribe,
         )
 
-    def initialize_features(self):
+    @staticmethod
+    def _get_remaining_ops_observer(
+        dispatcher: Dispatcher, feature_types: list[FeatureType]
+    ) -> RemainingOperationsObserver:
         def _has_same_features(observer: DispatcherObserver) -> bool:
             if not isinstance(observer, RemainingOperationsObserver):
                 return False
@@ -77,17 +84,22 @@ class IsCompletedObserver(FeatureObserver):
                 for feature_type in remaining_ops_feature_types
             )
 
-        self.set_features_to_zero()
-
         remaining_ops_feature_types = [
             feature_type
-            for feature_type in self.features.keys()
+            for feature_type in feature_types
             if feature_type != FeatureType.OPERATIONS
         ]
-        remaining_ops_observer = self.dispatcher.create_or_get_observer(
+        return dispatcher.create_or_get_observer(
             RemainingOperationsObserver,
             condition=_has_same_features,
             feature_types=remaining_ops_feature_types,
+        )
+
+    def initialize_features(self):
+        self.set_features_to_zero()
+
+        remaining_ops_observer = self._get_remaining_ops_observer(
+            self.dispatcher, list(self.features.keys())
         )
         if FeatureType.JOBS in self.features:
             self.remaining_ops_per_job = remaining_ops_observer.features[
